@@ -17,7 +17,7 @@ Require Import Grits.Base Grits.Forms Grits.Expand Grits.TcTop Grits.Runtime.
 Require Import Grits.RuntimeFootprint Grits.proofs.RuntimeFacts Grits.proofs.Diamond Grits.proofs.Determinism Grits.proofs.AsyncSync Grits.proofs.RuntimeCheckFacts Grits.proofs.ForkJoin Grits.proofs.DeterminismExamples.
 Require Import Grits.Tc Grits.spec.RtTyping Grits.spec.Topo Grits.proofs.RtSafety Grits.proofs.RtInit Grits.proofs.RtTheorems Grits.proofs.DeterminismTyped Grits.proofs.TopoLin Grits.proofs.TopoStep Grits.proofs.TopoReach Grits.proofs.InitLinear.
 Require Import Grits.spec.SynOk Grits.proofs.RtTcSyn Grits.proofs.RtTheoremsTc Grits.proofs.DeterminismTc.
-Require Import Grits.proofs.LinBridge Grits.proofs.InitAccept Grits.proofs.DeterminismAccept Grits.proofs.TopoStepExt Grits.proofs.TopoFinish Grits.proofs.TopoDup Grits.proofs.InvAll Grits.proofs.DeterminismAll Grits.proofs.AsyncSync Grits.proofs.InvNP Grits.proofs.PlainNP Grits.proofs.DeterminismNP Grits.proofs.Balanced Grits.proofs.RtTheoremsTc Grits.proofs.DeterminismFinal Grits.proofs.NPConfluence Grits.proofs.NPCfree Grits.proofs.NPJoin Grits.proofs.NPJoinA Grits.proofs.NPJoinBC Grits.proofs.NPDeterminism Grits.proofs.DeterminismNPCfree.
+Require Import Grits.proofs.LinBridge Grits.proofs.InitAccept Grits.proofs.DeterminismAccept Grits.proofs.TopoStepExt Grits.proofs.TopoFinish Grits.proofs.TopoDup Grits.proofs.InvAll Grits.proofs.DeterminismAll Grits.proofs.AsyncSync Grits.proofs.InvNP Grits.proofs.PlainNP Grits.proofs.DeterminismNP Grits.proofs.Balanced Grits.proofs.RtTheoremsTc Grits.proofs.DeterminismFinal Grits.proofs.NPConfluence Grits.proofs.NPCfree Grits.proofs.NPJoin Grits.proofs.NPJoinA Grits.proofs.NPJoinBC Grits.proofs.NPDeterminism Grits.proofs.DeterminismNPCfree Grits.proofs.NPSync Grits.proofs.RtSafetyNP Grits.proofs.StepErrors Grits.ModeDefs Grits.Modes Grits.STypes.
 
 Theorem C03_step_is_move : forall md D F c ch, step md D F c ch = sres_of c (move_of md D F c ch).
 Proof. exact step_move. Qed.
@@ -708,6 +708,26 @@ Proof. exact determinism_np_cfree. Qed.
 Example C03_example_np_cfree : np_cfree_text example_drop_text = true /\ np_cfree_text example_text = true.
 Proof. exact example_np_cfree. Qed.
 
+(* ---- towards the agreement of the non-polarized multiset with the polarized one WITH forwards (NOT proved
+   as a whole; see the manifest note): the steps of the non-polarized mode that are synchronous steps *)
+Theorem C03_np_run_is_sync : forall D F c p pp, procs c !! p = Some pp ->
+  body_is_fwd (pr_body0 pp) = false -> is_drop (pr_body0 pp) = false ->
+  step NP D F c (Run p) = step Sync D F c (Run p).
+Proof. exact np_run_is_sync. Qed.
+
+Theorem C03_np_rdv_is_sync : forall D F c s r ps pr, procs c !! s = Some ps -> procs c !! r = Some pr ->
+  body_is_fwd (pr_body0 ps) = false -> body_is_fwd (pr_body0 pr) = false ->
+  step NP D F c (Rendezvous s r) = step Sync D F c (Rendezvous s r).
+Proof. exact np_rdv_is_sync. Qed.
+
+Theorem C03_np_ctl_is_sync_neg : forall D F c f t to from nf nxf n0 body nx k st,
+  f <> t -> procs c !! f = Some (Proc [nf] (FFwd to from false) nxf) -> is_self to = true -> chan from = Some k ->
+  fwd_polarity D from = Ok Neg ->
+  procs c !! t = Some (Proc [n0] body nx) -> chan n0 = Some k -> body_is_fwd body = false ->
+  action_of Sync D (Proc [n0] body nx) = ARecv k -> chans c !! k = Some st -> ch_closed st = false ->
+  step NP D F c (Control f t) = step Sync D F c (Rendezvous f t).
+Proof. exact np_ctl_is_sync_neg. Qed.
+
 Print Assumptions C03_init_linear_accept.
 Print Assumptions C03_topo_runs_core_accept.
 Print Assumptions C03_determinism_core_accept.
@@ -747,3 +767,6 @@ Print Assumptions C03_np_balanced.
 Print Assumptions C03_determinism_np_cfree_cfg.
 Print Assumptions C03_determinism_np_cfree.
 Print Assumptions C03_example_np_cfree.
+Print Assumptions C03_np_run_is_sync.
+Print Assumptions C03_np_rdv_is_sync.
+Print Assumptions C03_np_ctl_is_sync_neg.
